@@ -14,6 +14,7 @@ LOOP_COQ_FILES = ["Bytes.v", "ParserModel.v", "BuilderModel.v", "ConnModel.v", "
 # C01 / C04 / C05 also state the refinement theorems (executable system -> abstract system)
 REFINE_COQ_FILES = ["DriverLoop.v", "Grammar.v", "ParserProofs.v", "ConnProofs.v", "RoundTripProofs.v", "LoopRefine.v", "LoopRefineProofs.v"]
 CANCEL_COQ_FILES = ["LoopCancel.v", "LoopCancelProofs.v"]
+MUTE_COQ_FILES = ["LoopDrainProofs.v", "LoopCancelDrainProofs.v", "LoopMute.v", "LoopMuteProofs.v"]
 
 SUBSYSTEMS = ["database", "update", "stored_playlist", "playlist", "player", "mixer", "output", "options", "partition",
               "sticker", "subscription", "message", "neighbor", "mount", "fingerprint", "Player", "x-y_z",
@@ -366,7 +367,7 @@ def gen_session(rng, n_steps, faults=False, cancel=True, with_drop=False, pauses
     return labels, info, rid
 
 
-def gen_fragment_session(rng, n_steps, tricky=True, cancels=False):
+def gen_fragment_session(rng, n_steps, tricky=True, cancels=False, drops=False):
     """A random schedule inside the fragment of the refinement theorems (Props/C05.v c05_exec_refines): single requests
     (plain words, arguments that need quoting, non-ASCII; ACK and binary replies) and command lists of 1..5 of them, changes, server reads, deliveries of any size, clock advances.
     With [cancels]: callers give up (x<id>) at random later points — in flight, queued, after the answer —, which puts the schedule
@@ -380,7 +381,11 @@ def gen_fragment_session(rng, n_steps, tricky=True, cancels=False):
     args = ["a", "x y", "it's", 'say "hi"', "back\\slash", "\u00e4\u00f6", "\u65e5\u672c", "", "tab\there", "OK", "list_OK", "ACK [5@0] {} x", "binary: 3", "idle x"]
     if not tricky:
         args = ["a", "b1", "OK", "list_OK", "idle", "noidle", "x-y_z", "0"]      # no quoting needed: the echoed line is name + arguments
-    for _ in range(n_steps):
+    drop_at = rng.randrange(n_steps) if drops and n_steps else None      # the application drops its ConnectionEvents here (Z)
+    for step in range(n_steps):
+        if step == drop_at:
+            labels.append("Z")
+            info["dropped_listener"] = True
         r = rng.random()
         if cancels and to_cancel and rng.random() < 0.25:
             victim = to_cancel.pop(rng.randrange(len(to_cancel)))
@@ -439,7 +444,12 @@ def fragment_membership(ctx, scheds):
     inside = sum(1 for o in outs if o == "in")
     why = {}
     for o in outs:
-        if o == "in+x":
+        if o in ("in+Z", "in+x+Z"):
+            k = "(listener dropped" + (", cancellations" if "+x" in o else "") + ": listener theorem + refinement)"
+            why[k] = why.get(k, 0) + 1
+        elif o.startswith("Z-ok:"):
+            why["(listener dropped: listener theorem only)"] = why.get("(listener dropped: listener theorem only)", 0) + 1
+        elif o == "in+x":
             why["(with cancellations: erasure theorem + refinement)"] = why.get("(with cancellations: erasure theorem + refinement)", 0) + 1
         elif o.startswith("x-ok:"):
             why["(with cancellations: erasure theorem only)"] = why.get("(with cancellations: erasure theorem only)", 0) + 1
